@@ -1,4 +1,5 @@
 import abc
+import errno
 import glob
 import io
 import os
@@ -1789,9 +1790,12 @@ class ContentFile(File):
         try:
             with self.filesystem.open(self.path, mode="rb") as infile:
                 content_hash = hash_stream(infile)
-        except FileNotFoundError:
+        except OSError as error:
             # A missing file hashes deterministically (compare LocalFileSystem.get_hash,
             # which uses size -1), so a deleted output is an invalid value, not an error.
+            # The path is also missing when one of its parents is a regular file (ENOTDIR).
+            if not isinstance(error, FileNotFoundError) and error.errno != errno.ENOTDIR:
+                raise
             return hash_struct([self.type_basename, self.path, -1])
         return hash_struct([self.type_basename, self.path, content_hash])
 
